@@ -1,6 +1,6 @@
 \* C45 leg A quick: <=2 rules over group {g1} x alert x a in {absent,"1",templated} x r in {"1","2"} x
 \* state firing (evaluation time = position); <=2 selector sets, <=2 matchers per set, <=3 matchers in total, matchers
-\* a x {EQ,NEQ} x {"","1"}.  Every input (7 095); leg B gets all of them.
+\* a x {EQ,NEQ} x {"","1"}.  Every input (7 095) is model-checked; leg B gets the inputs with <=1 set or <=1 rule (1 911).
 SPECIFICATION Spec
 CONSTANTS MaxRules = 2
           Groups = {"g1"}
@@ -14,7 +14,7 @@ CONSTANTS MaxRules = 2
           MNames = {"a"}
           MTypes = {"EQ", "NEQ"}
           MVals = {"", "1"}
-          CaseMaxRulesWithTwoSets = 2
+          CaseMaxRulesWithTwoSets = 1
 INVARIANTS C45_ResultSatisfiesProperty SurvivorPredictionHolds
 PROPERTY Progress
 CHECK_DEADLOCK TRUE
